@@ -14,9 +14,17 @@ type c08Lit struct {
 	Str bool
 	I   int
 	S   string
+	Nil bool // the untyped nil
+	Opq bool // a non-nil value the generator knows nothing else about (compared with nil only)
 }
 
 func (l c08Lit) Src() string {
+	if l.Nil {
+		return "nil"
+	}
+	if l.Opq {
+		panic("c08: an opaque value has no source form")
+	}
 	if l.Str {
 		return strconv.Quote(l.S)
 	}
@@ -25,6 +33,8 @@ func (l c08Lit) Src() string {
 
 func c08LitOf(v interface{}) (c08Lit, bool) {
 	switch t := v.(type) {
+	case nil:
+		return c08Lit{Nil: true}, true
 	case int:
 		return c08Lit{I: t}, true
 	case string:
@@ -34,7 +44,7 @@ func c08LitOf(v interface{}) (c08Lit, bool) {
 }
 
 type c08Cond struct {
-	Op   string // cmp | const | and | or
+	Op   string // cmp | const | and | or | truthy (the bare variable as a condition)
 	Var  string
 	Cmp  string
 	Lit  c08Lit
@@ -50,6 +60,8 @@ func (c *c08Cond) Src() string {
 		return "(" + c.L.Src() + ") && (" + c.R.Src() + ")"
 	case "or":
 		return "(" + c.L.Src() + ") || (" + c.R.Src() + ")"
+	case "truthy":
+		return c.Var
 	}
 	return c.Var + " " + c.Cmp + " " + c.Lit.Src()
 }
@@ -63,7 +75,25 @@ func (c *c08Cond) Eval(env map[string]c08Lit) bool {
 	case "or":
 		return c.L.Eval(env) || c.R.Eval(env)
 	}
-	v := env[c.Var]
+	v, bound := env[c.Var]
+	if !bound {
+		panic("c08: condition on a variable the generator does not know: " + c.Src())
+	}
+	if c.Op == "truthy" { // nil and "" are false; every number (0 too) is true
+		return !v.Nil && !(v.Str && v.S == "")
+	}
+	if v.Nil || c.Lit.Nil { // nil equals nil only
+		switch c.Cmp {
+		case "==":
+			return v.Nil && c.Lit.Nil
+		case "!=":
+			return !(v.Nil && c.Lit.Nil)
+		}
+		panic("c08: ordering comparison with nil " + c.Src())
+	}
+	if v.Opq {
+		panic("c08: comparison of an opaque value " + c.Src())
+	}
 	if v.Str {
 		switch c.Cmp {
 		case "==":
@@ -500,7 +530,7 @@ func c08Unroll(ss []*c08Stmt, env map[string]c08Lit) (string, int) {
 
 type c08Feat struct {
 	brk, cont, ret, nest, ctlAfterLoop, ctlAfterFn, ctlInInner, els bool
-	dyn, fnloop                                                     bool
+	dyn, fnloop, nilel                                              bool
 }
 
 func c08Scan(ss []*c08Stmt, f *c08Feat, depth int, seenLoop, seenFn bool) (bool, bool) {
@@ -544,6 +574,14 @@ func c08Scan(ss []*c08Stmt, f *c08Feat, depth int, seenLoop, seenFn bool) (bool,
 			for _, x := range s.EX {
 				if s.Dyn != "" && x.Var != "" {
 					f.dyn = true
+				}
+				if s.Dyn != "" && x.Var == "" && x.C.Nil {
+					f.nilel = true
+				}
+			}
+			for _, e := range s.Elems {
+				if s.Dyn == "" && e.Nil {
+					f.nilel = true
 				}
 			}
 			c08Scan(s.Body, f, depth+1, false, false)
@@ -647,6 +685,8 @@ func c08Assemble(bd *c08Build, it *c08Iterable) *c08Case {
 			}
 			if l, ok := c08LitOf(e.V); ok && it.VKind != "" {
 				env[bd.V] = l
+			} else if it.VKind == "opq" {
+				env[bd.V] = c08Lit{Opq: true}
 			}
 			t, f := c08Unroll(bd.Body, env)
 			cs.Pieces = append(cs.Pieces, t)
@@ -664,6 +704,24 @@ var c08MapKinds = []string{"msi", "mis", "msa", "pmsi", "hash"}
 
 // more element kinds, random part only: pointer elements, typed nil pointers among them, are elements like any other
 var c08MoreKinds = []string{"ptrs", "anyiter", "msp"}
+
+// masked kinds ("<kind>:<n>:<mask>", see c08MakeIterable): untyped nil elements / nil map values, NaN map keys,
+// zero-valued elements. The first list is also part of the grid (one mask per length), all are in the random part.
+var c08MaskedGrid = []string{"anyn", "errs", "litn", "msn", "mnan", "many", "zints"}
+var c08MaskedMore = []string{"arrn", "panyn", "parrn", "hashn", "pmnan", "zstrs", "falsies", "ziter", "fziter"}
+
+func c08Masked(kind string) bool {
+	for _, k := range append(append([]string{}, c08MaskedGrid...), c08MaskedMore...) {
+		if k == kind {
+			return true
+		}
+	}
+	return false
+}
+
+// c08GridMask: the marked positions the grid uses at each length (first, last, middle, two adjacent, both ends)
+var c08GridMask = []int{0, 1, 2, 5, 6, 9, 18}
+
 var c08NilKinds = []string{"nil-lit", "nil-fn", "nil-miss", "nilslice", "nilmap", "nilptr"}
 var c08NonIter = []string{"x-int", "x-intlit", "x-str", "x-strlit", "x-bool", "x-float", "x-struct", "x-pstruct", "x-func", "x-stringer"}
 
@@ -671,17 +729,34 @@ func c08Name(kind string, n int) string {
 	if kind == "range" || kind == "between" {
 		return fmt.Sprintf("%s:%d:%d", kind, n, 3)
 	}
+	if c08Masked(kind) {
+		return fmt.Sprintf("%s:%d:%d", kind, n, c08GridMask[n])
+	}
 	return fmt.Sprintf("%s:%d", kind, n)
 }
 
 func c08T(s string) *c08Stmt { return &c08Stmt{T: "text", S: s} }
 func c08E(s string) *c08Stmt { return &c08Stmt{T: "emit", S: s} }
 
+// c08EV emits a variable that may hold an untyped nil: bare it would be an unknown identifier, so it is
+// emitted under its own truthiness and "~" stands for nil.
+func c08EV(v string, nilable bool) *c08Stmt {
+	if !nilable {
+		return c08E(v)
+	}
+	return &c08Stmt{T: "if", Eq: true, Cond: &c08Cond{Op: "truthy", Var: v}, Then: []*c08Stmt{c08E(v)},
+		HasElse: true, Else: []*c08Stmt{c08T("~")}}
+}
+
 // c08CtlStmt: a control statement, bare (c == nil) or inside an if.
 func c08CtlStmt(ctl string, c *c08Cond, withText bool) *c08Stmt {
+	return c08CtlStmtOf(ctl, c, withText, "v")
+}
+
+func c08CtlStmtOf(ctl string, c *c08Cond, withText bool, retVar string) *c08Stmt {
 	st := &c08Stmt{T: "ctl", S: ctl}
 	if ctl == "return" {
-		st = &c08Stmt{T: "ret", S: "v"}
+		st = &c08Stmt{T: "ret", S: retVar}
 	}
 	if c == nil {
 		return st
@@ -700,7 +775,12 @@ func c08Insert(base []*c08Stmt, p int, s *c08Stmt) []*c08Stmt {
 
 func c08Grid(cfg Config, rep *Report) {
 	maxN := cfg.N(4, 6)
-	kinds := append(append([]string{}, c08OrderedKinds...), c08MapKinds...)
+	kinds := append(append(append([]string{}, c08OrderedKinds...), c08MapKinds...), c08MaskedGrid...)
+	// an inner loop over a list with a nil element in the middle: three iterations each time it is entered
+	innerNil := func() *c08Stmt {
+		return &c08Stmt{T: "for", K: "a", V: "b", Src: "[1, nil, 3]", Elems: []c08Lit{{I: 1}, {Nil: true}, {I: 3}},
+			Body: []*c08Stmt{c08T("("), c08E("a"), c08EV("b", true), c08T(")")}}
+	}
 	inner := func(silent bool) *c08Stmt {
 		if silent {
 			return &c08Stmt{T: "for", V: "b", Src: "[1]", Elems: []c08Lit{{I: 1}}, Silent: true}
@@ -711,14 +791,20 @@ func c08Grid(cfg Config, rep *Report) {
 	// an inner loop whose iterable is built from the outer loop's variables: entered once per outer
 	// iteration, it must visit what the iterable evaluates to THEN
 	innerDyn := func(it *c08Iterable, n int) *c08Stmt {
-		st := &c08Stmt{T: "for", K: "a", V: "b", Body: []*c08Stmt{c08T("("), c08E("a"), c08T("="), c08E("b"), c08T(")")}}
+		st := &c08Stmt{T: "for", K: "a", V: "b", Body: []*c08Stmt{c08T("("), c08E("a"), c08T("="), c08EV("b", it.Nilable), c08T(")")}}
+		// a variable holding nil cannot be mentioned in a literal: where the outer value may be nil the inner
+		// iterable has a nil of its own instead
+		vx := c08EX{Var: "v"}
+		if it.Nilable {
+			vx = c08EX{C: c08Lit{Nil: true}}
+		}
 		switch {
 		case n%3 == 1:
-			st.Dyn, st.EX = "hash", []c08EX{{Var: "v"}}
+			st.Dyn, st.EX = "hash", []c08EX{vx}
 		case n%3 == 2 && it.KKind == "int" && it.Class == "ordered":
 			st.Dyn, st.Cnt, st.EX = "range", 2, []c08EX{{Var: "k"}, {Var: "k", Op: "+", C: c08Lit{I: 1}}}
 		default:
-			st.Dyn, st.EX = "arr", []c08EX{{Var: "k"}, {C: c08Lit{I: 7}}, {Var: "v"}}
+			st.Dyn, st.EX = "arr", []c08EX{{Var: "k"}, vx, {C: c08Lit{I: 7}}}
 			if n%2 == 1 {
 				st.Via = "t"
 			}
@@ -726,7 +812,11 @@ func c08Grid(cfg Config, rep *Report) {
 		return st
 	}
 	// a loop in a function called twice per outer iteration: entered again and again with another argument
-	innerFn := func() *c08Stmt {
+	innerFn := func(it *c08Iterable) *c08Stmt {
+		if it.Nilable { // the value may be nil: it is no argument; the list has a nil element instead
+			return &c08Stmt{T: "for", V: "b", Dyn: "arr", EX: []c08EX{{Var: "p"}, {C: c08Lit{Nil: true}}, {C: c08Lit{I: 7}}}, Fn: "g", P: "p",
+				Args: []c08EX{{Var: "k"}, {C: c08Lit{I: 4}}}, Body: []*c08Stmt{c08T("<"), c08EV("b", true), c08T(">")}}
+		}
 		return &c08Stmt{T: "for", V: "b", Dyn: "arr", EX: []c08EX{{Var: "p"}, {C: c08Lit{I: 7}}}, Fn: "g", P: "p",
 			Args: []c08EX{{Var: "k"}, {Var: "v"}}, Body: []*c08Stmt{c08T("<"), c08E("b"), c08T(">")}}
 	}
@@ -745,21 +835,33 @@ func c08Grid(cfg Config, rep *Report) {
 				panic(err)
 			}
 			// firing conditions: none (bare), key == each key, plus one on the value when known
+			if c08Masked(kind) && (n == 0 || n == maxN) {
+				continue // nothing to mark in an empty one; one length less than the others (run time)
+			}
 			conds := []*c08Cond{nil}
 			for _, e := range it.Elems {
-				l, _ := c08LitOf(e.K)
-				conds = append(conds, &c08Cond{Op: "cmp", Var: "k", Cmp: "==", Lit: l})
+				if l, ok := c08LitOf(e.K); ok && it.KKind != "" { // keys the generator cannot write (float, NaN): no condition
+					conds = append(conds, &c08Cond{Op: "cmp", Var: "k", Cmp: "==", Lit: l})
+				}
 			}
-			if it.VKind != "" && n > 1 {
-				l, _ := c08LitOf(it.Elems[n-1].V)
+			nk := len(conds) - 1 // conditions on the key
+			if l, ok := c08LitOf(it.Elems0V(n - 1)); ok && it.VKind != "" && it.VKind != "opq" && n > 1 {
 				conds = append(conds, &c08Cond{Op: "cmp", Var: "v", Cmp: "==", Lit: l})
 			}
+			if it.Nilable && n > 0 { // what is nil and what is not
+				conds = append(conds, &c08Cond{Op: "cmp", Var: "v", Cmp: "==", Lit: c08Lit{Nil: true}}, &c08Cond{Op: "truthy", Var: "v"})
+			}
+			retVar := "v"
+			if it.Nilable {
+				retVar = "k" // `return v` with v nil is an unknown identifier
+			}
 			bases := [][]*c08Stmt{
-				{c08T("["), c08E("k"), c08T(":"), c08E("v"), c08T("]")},
-				{c08E("v"), inner(false), c08T(";")},
+				{c08T("["), c08E("k"), c08T(":"), c08EV("v", it.Nilable), c08T("]")},
+				{c08EV("v", it.Nilable), inner(false), c08T(";")},
 				{c08E("k"), inner(true), &c08Stmt{T: "fn", N: "g"}, c08T(",")},
 				{c08E("k"), innerDyn(it, n), c08T(";")},
-				{c08T("."), innerFn(), c08T(",")},
+				{c08T("."), innerFn(it), c08T(",")},
+				{c08E("k"), innerNil(), c08T(";")},
 			}
 			for bi, base := range bases {
 				for p := 0; p <= len(base); p++ {
@@ -768,12 +870,15 @@ func c08Grid(cfg Config, rep *Report) {
 							if ctl == "return" && (ci > 1 || bi > 0) {
 								continue
 							}
-							if bi >= 3 && ci > 1 && ci < n {
+							if bi >= 3 && ci > 1 && ci < nk {
 								continue // re-entered inner loops: bare, at the first key, at the last key, on the value
+							}
+							if bi == 5 && ci > 1 {
+								continue // the inner list with a nil: bare and at the first key
 							}
 							cnt++
 							style := []string{"tags", "merged"}[cnt%2]
-							bd := &c08Build{It: name, K: "k", V: "v", Body: c08Insert(base, p, c08CtlStmt(ctl, c, cnt%3 == 0)),
+							bd := &c08Build{It: name, K: "k", V: "v", Body: c08Insert(base, p, c08CtlStmtOf(ctl, c, cnt%3 == 0, retVar)),
 								Style: style, Sep: []string{"\n", " "}[(cnt/2)%2], Tail: cnt % 4, Pre: cnt % 3, Again: cnt%5 == 0}
 							run(bd, it)
 						}
@@ -781,7 +886,7 @@ func c08Grid(cfg Config, rep *Report) {
 				}
 			}
 			// one-tag form: only return emits; control before/after a silent inner loop and a fn literal
-			one := []*c08Stmt{{T: "let", N: "w", S: "v"}, inner(true), {T: "fn", N: "g"}, {T: "ret", S: "w"}}
+			one := []*c08Stmt{{T: "let", N: "w", S: retVar}, inner(true), {T: "fn", N: "g"}, {T: "ret", S: "w"}}
 			for p := 0; p < len(one); p++ {
 				for _, ctl := range []string{"break", "continue"} {
 					for _, c := range conds {
@@ -832,12 +937,32 @@ func (g *c08Gen) fresh(p string) string {
 }
 
 type c08Scope struct {
-	vars  []string            // every variable readable here (loop variables, lets)
+	vars  []string            // every variable that can be mentioned bare here (loop variables, lets): never nil
 	known map[string][]c08Lit // variables the generator can compare, with candidate literals near their values
+	nilv  []string            // variables that may hold an untyped nil: conditions only (all of them are in known)
+}
+
+// typed: whether the generator knows the type of v's non-nil values (and whether it is string).
+func (s *c08Scope) typed(v string) (str bool, ok bool) {
+	for _, l := range s.known[v] {
+		if !l.Nil && !l.Opq {
+			return l.Str, true
+		}
+	}
+	return false, false
+}
+
+func (s *c08Scope) isNilv(v string) bool {
+	for _, n := range s.nilv {
+		if n == v {
+			return true
+		}
+	}
+	return false
 }
 
 func (s *c08Scope) clone() *c08Scope {
-	n := &c08Scope{vars: append([]string{}, s.vars...), known: map[string][]c08Lit{}}
+	n := &c08Scope{vars: append([]string{}, s.vars...), known: map[string][]c08Lit{}, nilv: append([]string{}, s.nilv...)}
 	for k, v := range s.known {
 		n.known[k] = v
 	}
@@ -856,7 +981,7 @@ func (s *c08Scope) knownNames() []string {
 
 func (g *c08Gen) cond(sc *c08Scope, depth int) *c08Cond {
 	r := g.r
-	kn := sc.knownNames()
+	kn := append(sc.knownNames(), sc.nilv...)
 	if len(kn) == 0 || r.Chance(6) {
 		return &c08Cond{Op: "const", B: r.Chance(60)}
 	}
@@ -868,9 +993,16 @@ func (g *c08Gen) cond(sc *c08Scope, depth int) *c08Cond {
 		return &c08Cond{Op: op, L: g.cond(sc, depth+1), R: g.cond(sc, depth+1)}
 	}
 	v := Pick(r, kn)
+	nilv := sc.isNilv(v)
+	if (nilv && r.Chance(35)) || (!nilv && r.Chance(4)) {
+		return &c08Cond{Op: "truthy", Var: v}
+	}
 	lit := Pick(r, sc.known[v])
+	if nilv && r.Chance(30) {
+		lit = c08Lit{Nil: true}
+	}
 	cmps := []string{"==", "==", "!=", "<", ">", "<=", ">="}
-	if lit.Str {
+	if lit.Str || lit.Nil || nilv { // nil is neither less nor more than anything
 		cmps = []string{"==", "==", "!="}
 	}
 	return &c08Cond{Op: "cmp", Var: v, Cmp: Pick(r, cmps), Lit: lit}
@@ -913,7 +1045,13 @@ func (g *c08Gen) block(sc *c08Scope, depth, budget int, quiet bool) []*c08Stmt {
 			}
 		case w < 86 && depth < 3:
 			st := &c08Stmt{T: "if", Cond: g.cond(sc, 0), Eq: r.Bool()}
-			st.Then = g.ifBody(sc, depth, quiet)
+			tsc := sc
+			if c := st.Cond; sc.isNilv(c.Var) && (c.Op == "truthy" || (c.Op == "cmp" && c.Cmp == "!=" && c.Lit.Nil)) {
+				// under `if (x)` / `if (x != nil)` the variable is not nil: it can be mentioned bare
+				tsc = sc.clone()
+				tsc.vars = append(tsc.vars, c.Var)
+			}
+			st.Then = g.ifBody(tsc, depth, quiet)
 			if r.Chance(25) {
 				st.Elifs = append(st.Elifs, c08Elif{g.cond(sc, 0), g.ifBody(sc, depth, quiet)})
 			}
@@ -967,7 +1105,9 @@ func (g *c08Gen) exprs(sc *c08Scope, n int) (xs []c08EX, cands []c08Lit, known b
 	}
 	ints, strs := []string{}, []string{}
 	for _, v := range sc.knownNames() {
-		if sc.known[v][0].Str {
+		if str, ok := sc.typed(v); !ok {
+			continue
+		} else if str {
 			strs = append(strs, v)
 		} else {
 			ints = append(ints, v)
@@ -997,6 +1137,9 @@ func (g *c08Gen) exprs(sc *c08Scope, n int) (xs []c08EX, cands []c08Lit, known b
 		}
 		xs = append(xs, x)
 		for _, l := range sc.known[x.Var] {
+			if l.Nil || l.Opq {
+				continue // where the variable can be mentioned it is not nil
+			}
 			v, _ := x.Val(map[string]c08Lit{x.Var: l})
 			cands = append(cands, v)
 		}
@@ -1024,11 +1167,12 @@ func (g *c08Gen) loop(sc *c08Scope, depth int, quiet bool) *c08Stmt {
 	}
 	var vcands []c08Lit
 	vknown := true
+	vnil := false // the value variable may hold an untyped nil
 	n := r.Intn(4)
 	mode := r.Intn(100)
 	ints := []string{}
 	for _, v := range sc.knownNames() {
-		if !sc.known[v][0].Str {
+		if str, ok := sc.typed(v); ok && !str {
 			ints = append(ints, v)
 		}
 	}
@@ -1062,8 +1206,12 @@ func (g *c08Gen) loop(sc *c08Scope, depth int, quiet bool) *c08Stmt {
 		default:
 			ss := []string{}
 			for i := 0; i < n; i++ {
-				st.Elems = append(st.Elems, c08Lit{I: 20 + i})
-				ss = append(ss, strconv.Itoa(20+i))
+				l := c08Lit{I: 20 + i}
+				if r.Chance(30) { // an untyped nil among the elements: an element like any other
+					l, vnil = c08Lit{Nil: true}, true
+				}
+				st.Elems = append(st.Elems, l)
+				ss = append(ss, l.Src())
 			}
 			st.Src = "[" + strings.Join(ss, ", ") + "]"
 		}
@@ -1071,12 +1219,20 @@ func (g *c08Gen) loop(sc *c08Scope, depth int, quiet bool) *c08Stmt {
 	case mode < 72: // an array literal over the enclosing variables, in place or bound by a let first
 		st.Dyn = "arr"
 		st.EX, vcands, vknown = g.exprs(sc, r.Intn(4))
+		if vknown && r.Chance(25) { // a nil element somewhere in the literal
+			at := r.Intn(len(st.EX) + 1)
+			ex := append(append(append([]c08EX{}, st.EX[:at]...), c08EX{C: c08Lit{Nil: true}}), st.EX[at:]...)
+			st.EX, vcands, vnil = ex, append(vcands, c08Lit{Nil: true}), true
+		}
 		if r.Chance(25) {
 			st.Via = g.fresh("t")
 		}
 	case mode < 82: // a hash literal with at most one entry (no order to know)
 		st.Dyn = "hash"
 		st.EX, vcands, vknown = g.exprs(sc, r.Intn(2))
+		if vknown && len(st.EX) == 1 && r.Chance(20) { // an entry whose value is nil is an entry
+			st.EX, vcands, vnil = []c08EX{{C: c08Lit{Nil: true}}}, []c08Lit{{Nil: true}}, true
+		}
 		if st.K != "" {
 			sc = sc.clone()
 			sc.known[st.K] = []c08Lit{{Str: true, S: "n"}, {Str: true, S: "m"}}
@@ -1096,6 +1252,9 @@ func (g *c08Gen) loop(sc *c08Scope, depth int, quiet bool) *c08Stmt {
 		}
 		st.EX = []c08EX{mk(c), mk(c + n - 1)}
 		for _, l := range sc.known[v] {
+			if l.Nil || l.Opq {
+				continue
+			}
 			for j := 0; j < n; j++ {
 				vcands = append(vcands, c08Lit{I: l.I + c + j})
 			}
@@ -1118,7 +1277,11 @@ func (g *c08Gen) loop(sc *c08Scope, depth int, quiet bool) *c08Stmt {
 			in.known[st.K] = ks
 		}
 	}
-	in.vars = append(in.vars, st.V)
+	if vnil {
+		in.nilv = append(in.nilv, st.V) // mentioned in conditions only
+	} else {
+		in.vars = append(in.vars, st.V)
+	}
 	if vknown && len(vcands) > 0 {
 		in.known[st.V] = vcands
 	}
@@ -1128,6 +1291,7 @@ func (g *c08Gen) loop(sc *c08Scope, depth int, quiet bool) *c08Stmt {
 
 func c08Random(cfg Config, rep *Report, r *Rng) {
 	all := append(append(append([]string{}, c08OrderedKinds...), c08MapKinds...), c08MoreKinds...)
+	all = append(append(all, c08MaskedGrid...), c08MaskedMore...)
 	total := cfg.N(25000, 400000)
 	for i := 0; i < total && !rep.Full(); i++ {
 		kind := Pick(r, all)
@@ -1139,6 +1303,16 @@ func c08Random(cfg Config, rep *Report, r *Rng) {
 		if kind == "range" || kind == "between" {
 			name = fmt.Sprintf("%s:%d:%d", kind, n, r.Range(1, 5))
 		}
+		if c08Masked(kind) { // any subset of the positions marked, mostly a non-empty one
+			if n == 0 {
+				n = 1 + r.Intn(3)
+			}
+			m := r.Intn(1 << uint(n))
+			if m == 0 {
+				m = 1 << uint(r.Intn(n))
+			}
+			name = fmt.Sprintf("%s:%d:%d", kind, n, m)
+		}
 		it, err := c08MakeIterable(name)
 		if err != nil {
 			panic(err)
@@ -1149,11 +1323,11 @@ func c08Random(cfg Config, rep *Report, r *Rng) {
 		bd := &c08Build{It: name, V: "v", Style: style, Sep: Pick(r, []string{"\n", " ", "\n  "}),
 			Merge: r.Next() | 1, Tail: r.Intn(4), Pre: r.Intn(3), Again: r.Chance(20)}
 		sc := &c08Scope{known: map[string][]c08Lit{}}
-		if r.Chance(80) {
+		if r.Chance(80) || it.Nilable { // (a body must have something it can mention bare)
 			bd.K = "k"
 			sc.vars = append(sc.vars, "k")
 			for _, e := range it.Elems {
-				if l, ok := c08LitOf(e.K); ok {
+				if l, ok := c08LitOf(e.K); ok && it.KKind != "" {
 					sc.known["k"] = append(sc.known["k"], l)
 				}
 			}
@@ -1161,13 +1335,20 @@ func c08Random(cfg Config, rep *Report, r *Rng) {
 				sc.known["k"] = append(sc.known["k"], c08Lit{I: len(it.Elems)})
 			}
 		}
-		sc.vars = append(sc.vars, "v")
+		if it.Nilable {
+			sc.nilv = append(sc.nilv, "v")
+		} else {
+			sc.vars = append(sc.vars, "v")
+		}
 		if it.VKind != "" {
 			for _, e := range it.Elems {
 				if l, ok := c08LitOf(e.V); ok {
 					sc.known["v"] = append(sc.known["v"], l)
 				}
 			}
+		}
+		if it.Nilable { // whatever the mask, nil is a value to ask about
+			sc.known["v"] = append(sc.known["v"], c08Lit{Nil: true})
 		}
 		for k, v := range sc.known {
 			if len(v) == 0 {
@@ -1337,6 +1518,9 @@ func c08RunBuild(rep *Report, bd *c08Build) {
 	}
 	if ft.fnloop {
 		rep.Tag("inner:loop-in-fn-called-repeatedly")
+	}
+	if ft.nilel {
+		rep.Tag("inner:iterable-with-nil-element")
 	}
 	if v.Kind == "" || rep.Dist["shrunk"] >= 300 {
 		c08Record(rep, cs, it, v)
